@@ -16,17 +16,21 @@ pub fn replay_acquire_lock(sc: &Value) -> Value {
     let mut locked: HashSet<Uid> = HashSet::new();
     let mut names: HashMap<[u8; 32], String> = HashMap::new();
     let mut room_names: HashMap<Uid, String> = HashMap::new();
-    let mut receivers = vec![];
+    // (receiver, call before which it is dropped): a peer whose send is modelled as failing has dropped its receiver right
+    // before the call during which the first failure is seen
+    let mut receivers: Vec<(Option<mpsc::UnboundedReceiver<Uid>>, Option<u64>)> = vec![];
     for p in sc["peers"].as_array().unwrap() {
         let pname = p["peer"].as_str().unwrap();
         let (tx, rx) = mpsc::unbounded_channel::<Uid>();
-        // a peer whose first send is modelled as failing has dropped its receiver
-        let alive = sc["receiver_alive"][pname].as_array().map(|a| a.iter().all(|x| x.as_bool().unwrap_or(true))).unwrap_or(true);
-        if alive {
-            receivers.push(rx);
-        } else {
-            drop(rx);
-        }
+        let drop_at = match sc["drop_before_call"][pname].as_u64() {
+            Some(c) => Some(c),
+            // scenarios written before drop_before_call existed: any failed send = dropped from the start
+            None => match sc["receiver_alive"][pname].as_array().map(|a| a.iter().all(|x| x.as_bool().unwrap_or(true))).unwrap_or(true) {
+                true => None,
+                false => Some(0),
+            },
+        };
+        receivers.push((Some(rx), drop_at));
         let mut rooms = VecDeque::new();
         for r in p["rooms"].as_array().unwrap() {
             let u = uid16(r.as_str().unwrap());
@@ -44,7 +48,12 @@ pub fn replay_acquire_lock(sc: &Value) -> Value {
         locked.insert(u);
     }
     let mut avalaible: usize = sc["avalaible"].as_u64().unwrap() as usize;
-    for _ in 0..sc["calls"].as_u64().unwrap_or(1) {
+    for call in 0..sc["calls"].as_u64().unwrap_or(1) {
+        for r in receivers.iter_mut() {
+            if r.1 == Some(call) {
+                r.0 = None;
+            }
+        }
         rt.block_on(RoomLockService::acquire_lock(
             &mut peer_lock_request,
             &mut peer_queue,
@@ -65,8 +74,11 @@ pub fn replay_acquire_lock(sc: &Value) -> Value {
 /// C20 (service loop): the real RoomLockService task driven through its public API with a scripted message sequence;
 /// the grants delivered after each message are reported.  A receiver is dropped right before the message during which the
 /// model saw the first failed send on its channel.
+/// No wall clock is involved: the runtime has a single thread, so the service task only runs while this driver is suspended in
+/// `yield_now`, and once it has taken the message out of its queue it runs it to completion (the handling has no suspension
+/// point besides `recv`) before the driver is polled again.
 pub fn replay_lock_service(sc: &Value) -> Value {
-    let rt = tokio::runtime::Builder::new_multi_thread().enable_all().worker_threads(2).build().unwrap();
+    let rt = tokio::runtime::Builder::new_current_thread().enable_all().build().unwrap();
     rt.block_on(async {
         let svc = RoomLockService::start(sc["max_lock"].as_u64().unwrap() as usize);
         let msgs = sc["messages"].as_array().unwrap();
@@ -98,7 +110,21 @@ pub fn replay_lock_service(sc: &Value) -> Value {
                 room_names.insert(uid16(r), r.to_string());
                 svc.unlock(uid16(r)).await;
             }
-            tokio::time::sleep(std::time::Duration::from_millis(40)).await;
+            // the message has been handled once the task has taken it out of the queue and control has come back here
+            let mut taken = false;
+            for _ in 0..10_000 {
+                tokio::task::yield_now().await;
+                if svc.sender.capacity() == svc.sender.max_capacity() {
+                    taken = true;
+                    break;
+                }
+            }
+            if !taken {
+                return json!({"status": "stuck", "detail": format!("message {} was never taken out of the queue", i)});
+            }
+            for _ in 0..8 {
+                tokio::task::yield_now().await;
+            }
             let mut now: Vec<Vec<String>> = vec![];
             for r in receivers.iter_mut() {
                 if let Some(rx) = r.1.as_mut() {
